@@ -198,6 +198,27 @@ def rand_desc(rng, max_species=3, max_cells=8, reactions=False, space_kind=None,
     return desc
 
 
+def cell_env_indices(desc):
+    sp = desc["space"]
+    return list(sp["env"]) if sp["type"] == "grid" else [nd["env"] for nd in sp["nodes"]]
+
+
+def chs_from_species(desc):
+    """the default chemostat map the species' own flags prescribe (species-major): the entry of the cell's environment, else the
+    'default' entry, else not flagged"""
+    out = []
+    envs = cell_env_indices(desc)
+    for s in desc["species"]:
+        spec = s["chstt"]
+        for e in envs:
+            if "scalar" in spec:
+                out.append(bool(spec["scalar"]))
+            else:
+                d = dict((k, v) for k, v in spec["dict"])
+                out.append(bool(d.get(desc["envs"][e], d.get("default", False))))
+    return out
+
+
 def ncells(desc):
     sp = desc["space"]
     return sp["w"] * sp["h"] * sp["d"] if sp["type"] == "grid" else len(sp["nodes"])
